@@ -124,11 +124,17 @@ class ResumeOracle:
         self.ulines = {key_of(e): collections.Counter(e["lines"]) for e in U if is_m(e["pt"])}
         self.uorder = {key_of(e): e["lines"] for e in U if is_m(e["pt"])}
         self.prob_count = collections.Counter(e["prob"] for e in U)
+        # what the uninterrupted run wrote for each other pre-terminal (count and an order-independent digest)
+        self.uwritten = {key_of(e): self._written(e["lines"]) for e in U if not is_m(e["pt"])}
         self.saved_p = None
         self.partial = None        # (key, Counter of strings still owed, list in U order)
         self.res = res
         self.cycle_no = 0
         self.done = False
+
+    @staticmethod
+    def _written(lines):
+        return (len(lines), sum(hash(x) for x in lines) & ((1 << 61) - 1))
 
     def cycle(self, r, wr):
         """returns (kind, detail) or None"""
@@ -194,6 +200,12 @@ class ResumeOracle:
                     return ("repeat_below_saved_probability", {"cycle": c, "index": i, "pt": repr(e["pt"]), "prob": e["prob"],
                                                                "saved": self.saved_p})
                 res.stats["legit_tie_repeats"] += 1
+            if not is_m(e["pt"]) and k in self.uwritten and self._written(e["lines"]) != self.uwritten[k]:
+                # a pre-terminal that is popped is written out completely, whenever the quit arrives: the saved position
+                # is the NEXT pre-terminal, so nobody comes back for the rest of this one
+                return ("preterminal_counted_as_emitted_but_not_written_as_in_the_uninterrupted_run", {
+                    "cycle": c, "index": i, "pt": repr(e["pt"]), "lines_written": len(e["lines"]),
+                    "lines_in_uninterrupted_run": self.uwritten[k][0], "quit_arrived_in_this_cycle": bool(ctx.fired)})
             if is_m(e["pt"]):
                 gl = collections.Counter(e["lines"])
                 last = i == len(E) - 1
